@@ -62,7 +62,8 @@ func decodeAndCompare(s *ref.Struct, msg []byte, o decodeOpts) *decodeVerdict {
 		// the runtime accounts allocated bytes span-wise when a span is handed back, so one reading can
 		// include earlier allocations: a reading above the bound is repeated (the decode is deterministic,
 		// the accounting noise is not) and the smallest of four readings counts
-		for rep := 0; rep < 3 && v.Alloc > uint64(allocFactor*len(msg)+allocSlack); rep++ {
+		// (accounting noise is at most a few spans: an excess of more than 8 MB is not repeated)
+		for rep := 0; rep < 3 && v.Alloc > uint64(allocFactor*len(msg)+allocSlack) && v.Alloc < uint64(allocFactor*len(msg)+allocSlack)+8<<20; rep++ {
 			d2 := universe.New(s, o.Prior)
 			in2 := append(make([]byte, 0, len(msg)), msg...)
 			b0 := allocBytes()
